@@ -7,10 +7,14 @@ cd "$WT" || exit 2
 DEMO=$(ls demo_*.py | head -1)
 [ -f patch.diff ] || { echo "no patch.diff"; exit 2; }
 git checkout -q -- adsg_core
+# a fresh cache directory per run: the library's on-disk matrix/selection caches would otherwise carry results
+# computed by the other version of the code
 export XDG_CACHE_HOME=$(mktemp -d /tmp/xdg.XXXXXX)
 PYTHONPATH=$WT /venv/bin/python $DEMO >/tmp/seed_$ID.clean.log 2>&1; RC_CLEAN=$?
 git apply patch.diff || { echo "patch does not apply"; exit 2; }
+rm -rf "$XDG_CACHE_HOME"; export XDG_CACHE_HOME=$(mktemp -d /tmp/xdg.XXXXXX)
 PYTHONPATH=$WT /venv/bin/python $DEMO >/tmp/seed_$ID.mut.log 2>&1; RC_MUT=$?
+rm -rf "$XDG_CACHE_HOME"; export XDG_CACHE_HOME=$(mktemp -d /tmp/xdg.XXXXXX)
 OUT=$(mktemp /tmp/junit.XXXXXX.xml)
 PYTHONPATH=$WT /venv/bin/python -m pytest -q -p no:cacheprovider --timeout=900 --continue-on-collection-errors --junitxml=$OUT >/dev/null 2>&1
 MISSING=$(/venv/bin/python - "$OUT" <<'PY'
